@@ -31,6 +31,7 @@ THEOREMS = [
     "OllamaVerif.Sched.reach_invAll",
     "OllamaVerif.Sched.reach_inv",
     "OllamaVerif.Tie.C01.tree_variant_good",
+    "OllamaVerif.Tie.C01.expired_region_is_atomic",
 ]
 
 
